@@ -559,6 +559,18 @@ impl<'a> Socket<'a> {
                 }
             };
 
+            // `send` cannot know which source address will be used; a datagram whose
+            // source and destination are of different IP versions can never be sent.
+            if src_addr.version() != packet_meta.endpoint.addr.version() {
+                net_trace!(
+                    "udp:{}:{}: source address {} has a different IP version, dropping.",
+                    endpoint,
+                    packet_meta.endpoint,
+                    src_addr
+                );
+                return Ok(());
+            }
+
             net_trace!(
                 "udp:{}:{}: sending {} octets",
                 endpoint,
